@@ -203,3 +203,15 @@ claim("C08",
       "TL1n); the lexer's number conversion yields the i64 the digits spell when they fit, otherwise the f64 they spell, and the 0 fallback only for "
       "text that is neither (LN1-3). NOT proved: escape decoding in the lexer, float formatting round trip, backslash-escaping dialects.",
       "sqlparser's Display (quote doubling) is trusted; str::parse and format! are uninterpreted; date/time/interval arms are not under contract.")
+
+prop("C07", ["set_ops", "sql_prec"], select={"sql_prec": lambda n: n.split(".", 1)[1].startswith("NP4.std_neg") or n.endswith(".safety")},
+     not_covered="scope of every table / column reference, per-dialect grammar, empty projections, relation alias uniqueness (assign_names), "
+                 "`take n..` on SQLite emits OFFSET without LIMIT (observed defect, not under contract)")
+claim("C07",
+      "PARTIAL (necessary conditions only). Proved on the real code: EXCEPT ALL is created only for dialects that have it - otherwise a compile error "
+      "(unknown columns) or the anti-join fallback (EX1-3); the WITH clause is RECURSIVE iff at least one of its CTEs is a loop CTE, wherever it stands "
+      "(WR1, loop invariant, any number of CTEs) and carries every CTE (WR2); the set quantifier is ALL iff duplicates are kept and DISTINCT is written "
+      "only where the dialect accepts it (SQ1-2); nested unary minus never produces the comment token `--` (sql_prec NP4.std_neg rows). The sentence "
+      "'every accepted program compiles to valid SQL of the dialect' is NOT what is proved.",
+      "dialect flags and translate_cte are parameters / externals of the slices; the rest of except(), translate_query and "
+      "translate_set_ops_pipeline is dropped.")
